@@ -30,6 +30,7 @@ type FuncContract struct {
 	Props      []string
 	SafetyProps []string
 	Requires   []*Clause
+	Assumes    []*Clause // heap facts assumed at entry and NOT checked at call sites (unverified heap invariants; listed as assumptions)
 	Ensures    []*Clause
 	Invariants map[int][]*Clause
 	Decreases  map[int]*Clause
@@ -50,6 +51,8 @@ type FuncContract struct {
 	OnlyAt     []string // "p.f": of field f (of p's struct type) only the object p is written; all other objects keep f
 	FreshRefs  bool     // use the axiom that unknown heap arrays hold only pre-existing (or escaped) references
 	Preserves  []string // fields whose value in every pre-existing object is the same after the call (return or panic)
+	FieldCover []string // "T ignore=a,b": every field of struct type T is named in an ensures clause (or ignored on purpose)
+	Implements string   // slot key ("pkg.Type.field"): the slot's requires replace, and its ensures/frames extend, this contract
 	Unfold     []string // opaque specs whose definitions this function's proof needs from callee contracts
 	DynPreserves []string // fields that code reached through dynamic calls is assumed to leave unchanged
 	AssumeLoads string // spec predicate assumed of every interface value loaded from a struct field / slice element
@@ -86,6 +89,14 @@ type StableField struct {
 	Line             int
 }
 
+type GlobalsReadonly struct {
+	Pkg    string
+	Except []string
+	Props  []string
+	File   string
+	Line   int
+}
+
 // SpecFunc is a specification function: either a macro over contract expressions or a
 // raw SMT define-fun.
 type SpecFunc struct {
@@ -119,6 +130,8 @@ type ContractSet struct {
 	Lemmas  []*Lemma
 	Tables  []*TableFact
 	StableFields []*StableField
+	GlobalsRO    []*GlobalsReadonly
+	FrameSets map[string][]string
 	Slots   map[string]*FuncContract // contracts of function-valued struct fields: "pkg.Type.field"
 	Files   []string
 	Axioms  []string
@@ -145,6 +158,35 @@ func loadContracts() (*ContractSet, error) {
 			}
 			cs.Files = append(cs.Files, fn)
 		}
+	}
+	// "implements slot": the function is proved against the slot's contract: it may assume
+	// no more than the slot's requires and must establish the slot's ensures and frames
+	// (arguments are visible under the slot's names arg0, arg1, ...).
+	for _, fc := range cs.Funcs {
+		if fc.Implements == "" {
+			continue
+		}
+		slot := cs.Slots[fc.Implements]
+		if slot == nil {
+			return nil, fmt.Errorf("%s:%d: %s implements unknown slot %s", fc.File, fc.Line, fc.Key, fc.Implements)
+		}
+		if len(fc.Requires) > 0 {
+			return nil, fmt.Errorf("%s:%d: %s implements %s: its requires clauses belong on the slot", fc.File, fc.Line, fc.Key, fc.Implements)
+		}
+		cp := func(cls []*Clause) (out []*Clause) {
+			for _, c := range cls {
+				d := *c
+				d.Func = fc.Key
+				d.Props = nil
+				out = append(out, &d)
+			}
+			return
+		}
+		fc.Requires = cp(slot.Requires)
+		fc.Ensures = append(fc.Ensures, cp(slot.Ensures)...)
+		fc.Unwind = append(fc.Unwind, cp(slot.Unwind)...)
+		fc.OnlyAt = append(fc.OnlyAt, slot.OnlyAt...)
+		fc.Preserves = append(fc.Preserves, slot.Preserves...)
 	}
 	return cs, nil
 }
@@ -203,6 +245,24 @@ func (cs *ContractSet) parseFile(path, pkg string) error {
 			cur = &FuncContract{Key: key, Pkg: pkg, Invariants: map[int][]*Clause{}, Decreases: map[int]*Clause{}, File: path, Line: line}
 			cs.Funcs[key] = cur
 			lastText = nil
+		case "frameset":
+			// "frameset name = a, b, c": a named list for preserves clauses ("preserves @name")
+			eq := strings.Index(rest, "=")
+			if eq < 0 {
+				return fmt.Errorf("%s:%d: frameset: want name = entries", path, line)
+			}
+			if cs.FrameSets == nil {
+				cs.FrameSets = map[string][]string{}
+			}
+			var ents []string
+			for _, x := range splitTop(rest[eq+1:], ",") {
+				if x = strings.TrimSpace(x); x != "" {
+					ents = append(ents, x)
+				}
+			}
+			cs.FrameSets[strings.TrimSpace(rest[:eq])] = ents
+			cur = nil
+			lastText = nil
 		case "slot":
 			key := pkg + "." + rest
 			cur = &FuncContract{Key: "slot " + key, Pkg: pkg, Invariants: map[int][]*Clause{}, Decreases: map[int]*Clause{}, File: path, Line: line, Trusted: true}
@@ -223,6 +283,18 @@ func (cs *ContractSet) parseFile(path, pkg string) error {
 		case "smtraw":
 			cs.SMTRaw = append(cs.SMTRaw, rest)
 			lastText = &cs.SMTRaw[len(cs.SMTRaw)-1]
+			cur = nil
+		case "globals_readonly":
+			// globals_readonly[P] except=name1,name2 : package-level variables of this package are
+			// written only by its initialisers (the listed variables are documented exceptions)
+			gr := &GlobalsReadonly{Pkg: pkg, Props: props, File: path, Line: line}
+			for _, f := range strings.Fields(rest) {
+				if strings.HasPrefix(f, "except=") {
+					gr.Except = strings.Split(strings.TrimPrefix(f, "except="), ",")
+				}
+			}
+			cs.GlobalsRO = append(cs.GlobalsRO, gr)
+			lastText = nil
 			cur = nil
 		case "stabletypes":
 			// stabletypes[P] prefix=node files=cmpl_parse.go : every field of every struct type
@@ -304,6 +376,8 @@ func (cs *ContractSet) parseFile(path, pkg string) error {
 				lastText = nil
 			case "requires":
 				cur.Requires = append(cur.Requires, cl)
+			case "assumes":
+				cur.Assumes = append(cur.Assumes, cl)
 			case "ensures":
 				cur.Ensures = append(cur.Ensures, cl)
 			case "invariant":
@@ -376,11 +450,25 @@ func (cs *ContractSet) parseFile(path, pkg string) error {
 			case "fresh_refs":
 				cur.FreshRefs = true
 			case "preserves":
-				for _, x := range strings.Split(rest, ",") {
+				for _, x := range splitTop(rest, ",") {
 					if x = strings.TrimSpace(x); x != "" {
+						if strings.HasPrefix(x, "@") {
+							fs, ok := cs.FrameSets[x[1:]]
+							if !ok {
+								return fmt.Errorf("%s:%d: unknown frameset %s", path, line, x)
+							}
+							cur.Preserves = append(cur.Preserves, fs...)
+							continue
+						}
 						cur.Preserves = append(cur.Preserves, x)
 					}
 				}
+				lastText = nil
+			case "fieldcover":
+				cur.FieldCover = append(cur.FieldCover, rest)
+				lastText = nil
+			case "implements":
+				cur.Implements = pkg + "." + strings.TrimSpace(rest)
 				lastText = nil
 			case "unfold":
 				cur.Unfold = append(cur.Unfold, strings.Fields(strings.ReplaceAll(rest, ",", " "))...)
